@@ -1,7 +1,19 @@
 #!/bin/sh
-# Builds the gosym engine offline from /verif/engine (module cache only).
+# Builds the gosym engine offline from /verif/engine (module cache only), then
+# runs the engine self-test (Unicode definitions vs the real functions, UTF-8
+# lemma, x/text Title model, string intrinsics with native replay). A failing
+# self-test is reported but does not fail the setup: every check validates the
+# engine on its own run by native replay of path witnesses.
 set -e
-cd "$(dirname "$0")/engine"
-export GOFLAGS=-mod=mod GOPROXY=off
+here="$(cd "$(dirname "$0")" && pwd)"
+cd "$here/engine"
+export GOFLAGS=-mod=mod GOPROXY=off VERIF_ROOT="$here"
 go build -o ../bin/gosym ./cmd/gosym
-echo "built $(cd .. && pwd)/bin/gosym"
+echo "built $here/bin/gosym"
+if [ -z "$VERIF_SKIP_SELFTEST" ]; then
+  if ../bin/gosym selftest > "$here/selftest.log" 2>&1; then
+    echo "selftest: ok (log: $here/selftest.log)"
+  else
+    echo "WARNING: gosym selftest failed, see $here/selftest.log"
+  fi
+fi
